@@ -108,6 +108,10 @@ class C13(props.Prop):
         v.probes['shared_leafless_seen'] += sum(
             1 for d in rec.redups if d.get('shared_leafless'))
         v.nontrivial = shared_calls > 0
+        if not rec.redups and len(rec.rounds) >= 3:
+            # reduplicate probe not in place: rounds are still checked
+            v.nontrivial = True
+            v.probes['reduplicate_probe_missing'] += 1
         v.sample = {
             'opts': spec['opts'],
             'input': spec['input'][:500],
